@@ -183,6 +183,44 @@ def _perm(case, bad):
                     bad("inverse(forward(y)) != y (permutation)", cond, "back=%r %s" % (numpy.asarray(yb).tolist(), desc))
             except Exception as e:
                 bad("permutation round trip raises %s" % type(e).__name__, cond, "%s %s" % (str(e)[:160], desc))
+            if ls in ("int", "negint") and a is assigns[0]:
+                # label matrices (one column per output) and 1-D label vectors behind every memory layout: same values, same result
+                from checks.catalog import layouts
+                for idt in (numpy.int64, numpy.int32):
+                    Y2 = numpy.array([[labels[c], labels[a[(i * 3 + 1) % n]]] for i, c in enumerate(a)], dtype=idt)
+                    for target in (Y2, Y2[:, 0].copy()):
+                        refs = None
+                        for lname, Yl in layouts(target):
+                            lcond = "%s,%d-D labels %s" % (cond, target.ndim, "C-contiguous" if lname == "C" else "non-contiguous/" + lname)
+                            try:
+                                Yl0 = Yl.copy()
+                                tr = PermutationReciprocalTransformer(random_state=s)
+                                tr.fit(None, Yl)
+                                _, yt = tr.transform(None, Yl)
+                                _, yb = tr.get_fct_inv().transform(None, yt)
+                                cnt += 1
+                                if not numpy.array_equal(Yl, Yl0):
+                                    bad("targets modified in place", lcond, desc)
+                                if numpy.asarray(yb).shape != target.shape or not numpy.array_equal(numpy.asarray(yb), target):
+                                    bad("inverse(forward(y)) != y (permutation)", lcond, "y=%r back=%r %s" % (target.tolist(), numpy.asarray(yb).tolist(), desc))
+                                pm = tr.permutation_
+                                expf = numpy.array([pm[v] for v in target.ravel().tolist()]).reshape(target.shape)
+                                if not numpy.array_equal(numpy.asarray(yt), expf):
+                                    bad("forward(y) is not permutation_ applied cell by cell", lcond, "y=%r forward=%r permutation_=%r" % (
+                                        target.tolist(), numpy.asarray(yt).tolist(), pm))
+                                if case["clf"] == "tree" and target.ndim == 2:
+                                    m2 = TransformedTargetClassifier2(classifier=mk(), transformer=PermutationReciprocalTransformer(random_state=s))
+                                    m2.fit(X, Yl)
+                                    p2 = numpy.asarray(m2.predict(P))
+                                    if not numpy.array_equal(p2[:n], target):
+                                        bad("multi-output predictions on the training rows differ from the labels (fully grown tree)", lcond,
+                                            "%r vs %r %s" % (p2[:n].tolist(), target.tolist(), desc))
+                                    if refs is None:
+                                        refs = p2
+                                    elif not numpy.array_equal(refs, p2):
+                                        bad("predictions depend on the memory layout of the labels", lcond, desc)
+                            except Exception as e:
+                                bad("label matrix raises %s" % type(e).__name__, lcond, "%s %s" % (str(e)[:160], desc))
             if ls in ("int", "float", "negint"):
                 # NaN stays NaN (float targets)
                 yf = numpy.array([labels[c] for c in a], dtype=numpy.float64)
